@@ -4,6 +4,7 @@ package main
 
 import (
 	"bytes"
+	"encoding/hex"
 	"encoding/json"
 	"fmt"
 	"os"
@@ -18,7 +19,7 @@ import (
 )
 
 func c16List(l []string) []string {
-	if l == nil {
+	if len(l) == 0 { // nil and the empty slice are identified
 		return []string{"nil"}
 	}
 	return append([]string{strconv.Itoa(len(l))}, l...)
@@ -126,6 +127,22 @@ func init() {
 			return nil, err
 		}
 		return safeFields(append([]string{string(text)}, c16Report(text)...)), nil
+	})
+	// bytes given in hex (they need not be valid UTF-8)
+	runner.Register("rebase_parse_hex", func(a []string) ([]string, error) {
+		b, err := hex.DecodeString(a[0])
+		if err != nil {
+			return nil, err
+		}
+		return safeFields(c16Report(b)), nil
+	})
+	// json.Unmarshal of a JSON text into map[string]Enzyme: "ok" + entries, or "unmarshal-error"
+	runner.Register("rebase_import", func(a []string) ([]string, error) {
+		m := map[string]rebase.Enzyme{}
+		if err := json.Unmarshal([]byte(a[0]), &m); err != nil {
+			return []string{"unmarshal-error"}, nil
+		}
+		return safeFields(append([]string{"ok"}, c16Entries(m)...)), nil
 	})
 	// Read of a path that does not exist must return an error, not panic
 	runner.Register("rebase_read_missing", func(a []string) ([]string, error) {
